@@ -47,6 +47,31 @@ def special_harness(fn, region):
             else:
                 ex.check(conj([rlt(exp[1], r), rlt(r, exp[2])]), "%s:result-outside-the-quadrant's-interval" % lab)
             return
+        if fn in ("asinh", "atanh") and region == "odd":
+            # odd symmetry on the whole domain, asymptotic branches included: f(-x) = -f(x)
+            if fn == "atanh":
+                ex.assume(rlt(rabs(x), ONE))
+            r1 = tr.call("a_real_" + fn, x, ret="f64")
+            r2 = tr.call("a_real_" + fn, sub(ZERO, x), ret="f64")
+            ex.check(req(r2, sub(ZERO, r1)), fn + ":not-an-odd-function")
+            return
+        if fn == "asinh" and region == "huge":
+            # asymptotic branch: |asinh x| = log|x| + ln 2 (the literal A_REAL_LN2)
+            SQ = Fraction(1.4901161193847656e-8)
+            a = rabs(x)
+            ex.assume(rlt(1 / SQ, a))
+            r = tr.call("a_real_asinh", x, ret="f64")
+            arg, lg = u["log"].calls[-1]
+            ex.check(req(arg, a), "asinh:asymptotic-branch-does-not-take-log|x|")
+            ex.check(req(rabs(r), add(lg, Fraction(math.log(2)))), "asinh:asymptotic-branch-is-not-log|x|+ln2")
+            return
+        if fn == "acosh" and region == "huge":
+            SQ = Fraction(1.4901161193847656e-8)
+            ex.assume(rlt(1 / SQ, x))
+            r = tr.call("a_real_acosh", x, ret="f64")
+            arg, lg = u["log"].calls[-1]
+            ex.check(conj([req(arg, x), req(r, add(lg, Fraction(math.log(2))))]), "acosh:asymptotic-branch-is-not-log(x)+ln2")
+            return
         if fn == "asinh":
             lo, hi = region
             a = rabs(x)
@@ -266,7 +291,8 @@ def main():
     N = 4 if T == "quick" else 6
     SQ = Fraction(1.4901161193847656e-8)
     fb = [("special", "atan2", (sx, sy)) for sx in "+-0" for sy in "+-0"]
-    fb += [("special", "asinh", (Fraction(2), 1 / SQ)), ("special", "asinh", (SQ, Fraction(2))),
+    fb += [("special", "asinh", "odd"), ("special", "atanh", "odd"), ("special", "asinh", "huge"), ("special", "acosh", "huge"),
+           ("special", "asinh", (Fraction(2), 1 / SQ)), ("special", "asinh", (SQ, Fraction(2))),
            ("special", "acosh", (Fraction(2), 1 / SQ)), ("special", "acosh", (ONE, Fraction(2))), ("special", "acosh", "nan"), ("special", "acosh", "one"),
            ("special", "atanh", (Fraction(1, 2), ONE)), ("special", "atanh", (Fraction(2) ** -52, Fraction(1, 2))), ("special", "atanh", "nan"), ("special", "atanh", "pole"),
            ("special", "log1p", "domain"), ("special", "expm1", "outside-kernel")]
@@ -296,7 +322,7 @@ def main():
     res.bounds = {"configurations": "every A_HAVE_* switch off (fallback bodies) for the special functions; both settings for the reductions and data-movement helpers",
                   "special functions": "all real arguments of each exact branch; atan2 over all nine sign combinations of (x, y)",
                   "arrays": "lengths 0..%d, strides 1-3, block/cache sizes 0..3" % N}
-    res.outside = ["accuracy to a few ulp of any transcendental evaluation (no installed solver decides it)", "the asymptotic branches log(a)+ln2 / 'return x' and the rational expm1 kernel",
+    res.outside = ["accuracy to a few ulp of any transcendental evaluation (no installed solver decides it)", "accuracy of the asymptotic branches (their structure log|x| + ln 2 and odd symmetry ARE decided) and the rational expm1 kernel",
                    "norms do not overflow/underflow (an IEEE range statement)", "float instantiation", "the libm-bound configuration of the special functions (the macro binds the C library function directly)"]
     res.assumptions = ["atan is odd, increasing, into (-pi/2, pi/2) with the sign of its argument; log is increasing with log(1) = 0; exp is positive and increasing; sin/cos have range [-1,1] and the usual parity",
                        "pi is the value of the A_REAL_PI literal"]
